@@ -662,3 +662,13 @@ func (fi *FuncInfo) ResolveLocalField(rt *Term, f string, at ssa.Instruction) *T
 	}
 	return nil
 }
+
+// ConstTerm builds a constant term.
+func ConstTerm(text string) *Term { return mk(KConst, text, nil, nil) }
+
+// NormBin builds a normalised binary term (comparisons are rewritten to < and
+// <=, commutative operands are ordered).
+func NormBin(op string, a, b *Term) *Term { return normalize(mk(KBin, op, nil, nil, a, b)) }
+
+// FieldlessExtract returns the term of result i of a call.
+func (fi *FuncInfo) FieldlessExtract(call *ssa.Call, i int) *Term { return fi.extractTerm(call, i) }
